@@ -326,6 +326,7 @@ type c15case struct {
 	AMEV     bool   `json:"amev"`
 	Dyn      bool   `json:"dyn"`
 	ViaReset bool   `json:"via_reset"`
+	Aband    bool   `json:"abandoned_proposal"` // a proposal of view 0 stamped ahead of the local clock was received before the view change
 }
 
 func c15Pools() [][]H {
@@ -425,6 +426,18 @@ func c15Drive(c c15case, fail func(key, msg string)) (proposals int) {
 	// Start already ran inside newWorld; its pre-state is the scenario's
 	check("Start", pre{c.Prev, slices.Clone(c.Pool), c.Height})
 	if c.View > 0 {
+		if c.Aband {
+			// the primary of view 0 (its clock runs ahead) proposed; the proposal is abandoned by the view change below
+			// and must not leak into this node's own proposal: "previous" means the previous block
+			p0 := primaryAt(c.Height, 0, c.N)
+			ats := (uint64(c.Clock)/inc + 5) * inc
+			if ats <= c.Prev {
+				ats = c.Prev + 5*inc
+			}
+			st := snap()
+			n.Receive(&Payload{typ: dbft.PrepareRequestType, height: c.Height, view: 0, idx: uint16(p0), body: &prepReq{ts: ats, nonce: 77, txs: nil}})
+			check("abandoned proposal", st)
+		}
 		for i := 0; i < c.N; i++ {
 			if i == x {
 				continue
@@ -486,14 +499,19 @@ func c15Cases(shard, shards int, tier string) []c15case {
 												if vr && v > 0 {
 													continue
 												}
-												i++
-												if i%shards != shard {
-													continue
+												for _, ab := range []bool{false, true} {
+													if ab && v == 0 {
+														continue
+													}
+													i++
+													if i%shards != shard {
+														continue
+													}
+													if clock == 0 {
+														continue
+													}
+													out = append(out, c15case{inc, prev, clock, pool, h, v, n, amev, dyn, vr, ab})
 												}
-												if clock == 0 {
-													continue
-												}
-												out = append(out, c15case{inc, prev, clock, pool, h, v, n, amev, dyn, vr})
 											}
 										}
 									}
@@ -566,7 +584,7 @@ func init() {
 			}
 		}
 		rc := finishEnum("C15", tier, start, props, drives-empty, fails, samples,
-			"full grid: increment {1ns,1us,1ms,1s,7ms,13s,2^20ns} x previous timestamp {0,1,inc-1,inc,7inc-1,7inc,7inc+1} (+0 and +1.7e18 base) x clock = previous + {-2inc,-1,0,+1,inc-1,inc,inc+1,3.5inc} x every ordered selection of <=3 of 3 pool transactions (16 lists) x height {1,N,2^32-1} x view {0,1,2} (N=4, reached through real ChangeView quorums) x N {1,4} x anti-MEV off/on x dynamic block time off/on x {proposal forced in Start, proposal after Reset+OnTimeout}; each case is one real Start/OnReceive/Reset/OnTimeout drive; evaluations = proposals broadcast and checked (a single-node drive proposes for two heights), distinct_nontrivial = distinct grid points whose drive produced at least one proposal",
+			"full grid: increment {1ns,1us,1ms,1s,7ms,13s,2^20ns} x previous timestamp {0,1,inc-1,inc,7inc-1,7inc,7inc+1} (+0 and +1.7e18 base) x clock = previous + {-2inc,-1,0,+1,inc-1,inc,inc+1,3.5inc} x every ordered selection of <=3 of 3 pool transactions (16 lists) x height {1,N,2^32-1} x view {0,1,2} (N=4, reached through real ChangeView quorums) x N {1,4} x anti-MEV off/on x dynamic block time off/on x {proposal forced in Start, proposal after Reset+OnTimeout} x (views>0) {no earlier proposal, a view-0 proposal stamped ahead of the local clock received and abandoned}; each case is one real Start/OnReceive/Reset/OnTimeout drive; evaluations = proposals broadcast and checked (a single-node drive proposes for two heights), distinct_nontrivial = distinct grid points whose drive produced at least one proposal",
 			true, []string{"the same grid in both tiers (it is small enough to run in full)", "reading of 'whenever that is larger': the truncated clock must be used whenever it exceeds previous timestamp + increment; otherwise only 'strictly greater than the previous timestamp' is required"})
 		if bad {
 			return 2
